@@ -84,6 +84,11 @@ func c06ScenarioH(name string, steps []c06Step, sync bool, mkh func() *scriptHan
 					st.clientEnd = "negotiation failed"
 					return
 				}
+				if strings.HasPrefix(name, "late-timers/") {
+					// the session outlives every timeout the server armed during
+					// the handshake: their time runs out now
+					st.note = append(st.note, fmt.Sprintf("timers fired: %d", vsched.FireTimers()))
+				}
 				tagFree := func(i int) bool {
 					sent, got := 0, 0
 					for j := 0; j < i; j++ {
@@ -368,6 +373,8 @@ func c06Scenarios() []*explore.Scenario {
 		c06Scenario("dup-flush[t1 F1(old1)]", []c06Step{{Tag: 1, Await: -1, Kind: 0}, {Tag: 1, Await: -1, Flush: true, Old: 1}}, false, 1),
 		c06Scenario("dup-flush[t1 t2 F2(old2)]", []c06Step{{Tag: 1, Await: -1, Kind: 0}, {Tag: 2, Await: -1, Kind: 2}, {Tag: 2, Await: -1, Flush: true, Old: 2}}, false, 1),
 	)
+	// a session that is older than the handshake timeout
+	out = append(out, c06Scenario("late-timers/[t1 t2]", []c06Step{{Tag: 1, Await: -1, Kind: 0}, {Tag: 2, Await: -1, Kind: 1}}, false, 0))
 	out = append(out, c06Pipeline(300))
 	return out
 }
